@@ -1,0 +1,10 @@
+// SPDX-FileCopyrightText: 2021 dtn7-go contributors
+//
+// SPDX-License-Identifier: GPL-3.0-or-later
+
+//go:build !verif
+
+package routing
+
+// verifPoint marks a schedule point for interleaving tests. It is a no-op unless built with the verif tag.
+func verifPoint(string) {}
